@@ -51,7 +51,7 @@ PROPS["C06"] = {
     "props_file": "Props/C06.v",
     "eval_module": "Run.EvalFrame",
     "kinds": {"newmsg": {"type": "case_newmsg", "chk": "chk_newmsg", "sig": "sig_newmsg", "scope": "N_scope"}},
-    "rule": "NewMessage(mid, payload): boundary lengths x identifiers, every length (see tier), adversarial content (FA FF runs, embedded frames), all 256 error codes; observable = frame bytes, Validate verdict, tokens a real bufio.Scanner(ScanMessages) delivers, all accessors; non-trivial = payload non-empty / boundary length class / error identifier / contains FA; distinct = distinct case terms",
+    "rule": "NewMessage(mid, payload): boundary lengths x identifiers, every length (see tier), adversarial content (FA FF runs, embedded frames), all 256 error codes; observable = frame bytes, Validate verdict, tokens a real bufio.Scanner(ScanMessages) delivers under several read fragmentations (whole, byte by byte, one cut at each of the first 7 positions and before the checksum, a cut with an empty read, the frame twice with the second header split after its preamble), all accessors; non-trivial = payload non-empty / boundary length class / error identifier / contains FA; distinct = distinct case terms",
     "trusted": FRAME_TRUSTED,
     "assumptions": ["payload length < 65536 (the property quantifies over 0..2048)"],
 }
@@ -279,15 +279,15 @@ PROPS["C19"] = {
 
 EMU_NOTE = "Trusted: Coq kernel; hand-written event-level model of xsensemulator/emulator.go (validated by correspondence); the frame model of C02; harness (drives a real emulator deterministically through a port that reports when the receive loop is idle). No axioms."
 PROPS["C16"] = {
-    "level_text": "Theorems (Props/C16.v) over Model.Link - client (send / receiveUntil with the identifiers of the generated command table) and emulator receive loop (Model.Emulator.estep split into 'update state' and 'write acknowledge') as separately scheduled steps over two FIFO channels - for EVERY schedule, every command sequence of any length and every configuration of up to 512 in-range settings: each enabled step consumes exactly one of 4*|cmds| units and some step is always enabled while a command is outstanding (so every command completes, none fails); whenever the client is between commands the emulator's mode and configuration are those of exactly the commands that have returned; MarshalMessage refuses a type iff no setting has it and otherwise uses the identifier of the setting of that type; in the data phase received ++ in-flight = transmitted (order, no loss/duplication/merging), every frame validates, Transmit writes iff the last command was go-to-measurement; and, on the skeleton regenerated from emulator.go, no path of an iteration of Receive writes shared state after a port write. Correspondence: real client + real emulator over synchronous and buffered in-memory links, GOMAXPROCS 1..16.",
-    "level_note": "Channels carry frames: byte-level fragmentation independence is C01's theorem and the client's command loop refinement is C08's; the composition with them is by statement, not by a single Coq theorem. Goroutine scheduling itself is not modelled beyond interleaving of the four step kinds; the real runs only see the schedules that happen. The decoded-value clause uses Model.Codec (C04/C05 theorems) through the evaluator; its end-to-end Coq statement is Proofs/DataPathProofs when present.",
+    "level_text": "Theorems (Props/C16.v) over Model.Link - client (send / receiveUntil with the identifiers of the generated command table) and emulator receive loop (Model.Emulator.estep split into 'update state' and 'write acknowledge') as separately scheduled steps over two FIFO channels - for EVERY schedule, every command sequence of any length and every configuration of up to 512 in-range settings: each enabled step consumes exactly one of 4*|cmds| units and some step is always enabled while a command is outstanding (so every command completes, none fails); whenever the client is between commands the emulator's mode and configuration are those of exactly the commands that have returned; MarshalMessage refuses a type iff no setting has it and otherwise uses the identifier of the setting of that type; in the data phase received ++ in-flight = transmitted (order, no loss/duplication/merging), every frame validates, Transmit writes iff the last command was go-to-measurement; on the skeleton regenerated from emulator.go, no path of an iteration of Receive writes shared state after a port write; and a marshalled measurement of a configured type is decoded by the client as exactly one packet of the dispatched Go type holding the value at the configured precision (unchanged when representable). Correspondence: real client + real emulator over synchronous and buffered in-memory links, GOMAXPROCS 1..16.",
+    "level_note": "Channels carry frames: byte-level fragmentation independence is C01's theorem and the client's command loop refinement is C08's; the composition with them is by statement, not by a single Coq theorem. Goroutine scheduling itself is not modelled beyond interleaving of the four step kinds; the real runs only see the schedules that happen. The decoded-value clause is C16_configured_measurement_arrives (Proofs/DataPathProofs.v): generated dispatch table and layouts for the finite part, the generic codec theorems (Flocq; four standard-library axioms of the reals) for the values.",
     "technique": "Rocq proof (invariant + measure by induction over every schedule of an interleaving model; reflective order check of a skeleton translated from the Go AST on every run) + differential correspondence of real client/emulator runs against the model's canonical schedule",
     "props_file": "Props/C16.v",
     "eval_modules": ["Run.EvalLink"],
     "imports": ["XS.Model.Link"],
     "kinds": {"link": {"type": "case_link", "chk": "chk_link", "sig": "sig_link", "scope": "Z_scope"}},
     "rule": "command sequences: empty; the documented workflow for configuration sizes 1..25; reconfiguration to fewer settings (with and without returning to measurement); the same configuration twice; repeated mode commands; measuring with an empty configuration; random sequences of 0..12 (thorough 0..50) commands. Each on a synchronous (io.Pipe) and a buffered link, GOMAXPROCS drawn from {1,2,4,16}. After every command returns: LastMessageIdentifier and MarshalMessage for all 25 types + one unknown type, the types the command changed probed first. Then 0..12 transmissions of random values (types mostly from the configuration) while the client reads; per frame the client's typed value. Oracle: mode_after / conf_after of the returned commands, last-setting-wins identifiers, value at the configured precision (Model.Codec), order and count. non-trivial = at least one command; distinct = distinct terms",
-    "trusted": ["in-memory links of the harness (io.Pipe; a mutex/cond buffered pipe) are lossless and ordered", "the observation after a command returns is taken from the harness goroutine as soon as the call returns"],
+    "trusted": CODEC_TRUSTED + ["in-memory links of the harness (io.Pipe; a mutex/cond buffered pipe) are lossless and ordered", "the observation after a command returns is taken from the harness goroutine as soon as the call returns"],
     "assumptions": ["lossless duplex link", "one client, commands issued sequentially", "measurements are transmitted after the command sequence (the property's 'then')"],
 }
 
